@@ -30,7 +30,7 @@ FUNCTIONS = ["CellWrapper._wrap_columns (E2) / fit/_init_rows/_wrap_column/_refr
 PART = {}
 BOUNDS = {"quick": "E2: 2 columns with natural lengths in [0,255] and 3 columns with lengths in [0,31], n <= max total width <= the same limit, total > max; E1: 2x2 and 1x3 tables, cells from a 5-text menu (empty, short, three long words, one 25-character word, style-tagged), "
                    "terminal widths {20, 28, 40, 56} (2x2) / {24, 36, 50} (1x3), indentation {0, 4}, header on/off, 3 alignments, 4 styles",
-          "thorough": "E2: n = 2 (lengths <= 1500), 3 (<= 255), 4 (<= 31); E1: 2x3 tables, widths 20..80"}
+          "thorough": "E2: n = 2 (lengths <= 1500), 3 (<= 255), 4 (<= 31); E1: 8 widths in 20..72, all 9 alignment pairs, 7 widths for 1x3 tables with all alignments"}
 OUTSIDE = ["tables larger than 3 columns x 2 rows in E1", "cell lengths above the stated ranges in E2", "cells whose style tags get split by the wrapper (textwrap is not format aware: a documented TODO in the code)", "ANSI decorated rendering (plain BufferedIO only)"]
 STUBS = ["E2: CellWrapper._wrap_column + _refresh_column_length -> nondeterministic refreshed length r with (w >= 1 and natural > w) => 1 <= r <= w, (natural <= w) => r == natural"]
 ASSUMPTIONS = ["'leaves at least one character per column beside the borders' = available width (terminal - indentation - borders - n x cell padding) >= number of columns"]
@@ -298,7 +298,7 @@ def conditions(tier):
     for n, lim, tmo in ([(2, 255, 150), (3, 31, 200)] if quick else [(2, 1500, 900), (3, 255, 900), (4, 31, 900)]):
         conds.append({"name": "smt_wrap[n=%d,len<=%d]" % (n, lim), "engine": "smt", "fn": smt_wrap, "timeout": tmo * 5, "part": {"n": n, "lim": lim, "tmo": tmo}, "replay": _replay_wrap,
                       "bounds": "%d columns, natural lengths in [0,%d], %d <= max total width <= %d, total > max (cvc5 QF_BVFP over the translated _wrap_columns)" % (n, lim, n, lim)})
-    widths22 = (20, 28, 40, 56) if quick else range(20, 81, 4)
+    widths22 = (20, 28, 40, 56) if quick else (20, 24, 28, 32, 40, 48, 56, 72)
     for style in range(4):
         for w in widths22:
             for ind in (False, True):
